@@ -217,7 +217,7 @@ def deconv2d_cases(draw, tier="quick"):
     dim = draw(st.integers(6, 8 if tier == "quick" else 10))
     psf = draw(st.sampled_from(["gauss", "moffat", "defocus", "array", "array"]))
     size = draw(st.integers(2, 5))
-    c = {"dim": dim, "PSF": psf, "PSF_param": draw(st.sampled_from([0.7, 1.5, 2.56])), "PSF_size": size,
+    c = {"dim": dim, "PSF": psf, "PSF_param": draw(st.sampled_from([0.7, 1.0, 1.5, 2.0, 2.56])), "PSF_size": size,
          "BC": draw(st.sampled_from(["zero", "periodic", "Neumann", "Mirror", "Nearest"])),
          "noise_type": draw(st.sampled_from(["gaussian", "scaledGaussian"])), "noise_std": draw(st.sampled_from([0.0036, 0.3])),
          "phantom": draw(gen.mat(dim, dim, 0.1, 2)), "e": draw(gen.vec(dim * dim, -2, 2)), "x": draw(gen.vec(dim * dim, -2, 2))}
@@ -248,6 +248,9 @@ def run_deconv2d(c, rec):
         require(maxdiff(P, A(c["PSF_array"])) == 0, "the stated PSF is not the array that was passed")
     else:
         require(P.shape == (c["PSF_size"], c["PSF_size"]) and abs(P.sum() - 1) < 1e-12 and np.all(P >= 0), "named PSF is not a normalised kernel of the stated size")
+        Pref = psf2d(c["PSF"].lower(), c["PSF_size"], c["PSF_param"])
+        require(P.shape == Pref.shape and maxdiff(P, Pref) <= 1e-12, f"the {c['PSF']} PSF is not the kernel of its definition (size {c['PSF_size']}, parameter {c['PSF_param']})",
+                got=P, want=Pref)
         if c["PSF_size"] % 2 == 1:
             # Gauss / Moffat / defocus kernels are even functions of the offset from the centre pixel
             ctr = c["PSF_size"] // 2
@@ -290,7 +293,7 @@ def run_deconv2d(c, rec):
 def pde_cases(draw, tier="quick"):
     which = draw(st.sampled_from(["Heat1D", "Poisson1D"]))
     dim = draw(st.integers(8, 12 if tier == "quick" else 16))
-    ft = draw(st.sampled_from([None, "KL", "Step"]))
+    ft = draw(st.sampled_from([None, "KL", "Step", "geometry_object"]))
     c = {"which": which, "dim": dim, "endpoint": draw(st.sampled_from([1.0, 2.0])), "field_type": ft,
          "map": draw(st.sampled_from([None, "exp"])), "SNR": draw(st.sampled_from([50, 200, 1000])),
          "obs_map": draw(st.sampled_from([None, "upper_half", "every_second"])),
@@ -313,7 +316,16 @@ def run_pde(c, rec):
     tags = {"problem": which, "field": str(c["field_type"]), "map": str(c["map"]), "obs": str(c["obs_map"]), "custom_exact": c["custom_exact"]}
     if rec.classify(tags, c["map"] is not None or c["obs_map"] is not None or c["field_type"] is not None):
         return
-    kw = dict(dim=dim, endpoint=L, field_type=c["field_type"], field_params=c.get("field_params"), SNR=c["SNR"],
+    ftype = c["field_type"]
+    if ftype == "geometry_object":
+        # the field type may be given as a geometry object on the problem's own domain grid (combined with a map or not)
+        kw0 = dict(dim=dim, endpoint=L)
+        if which == "Heat1D":
+            kw0["max_time"] = c["max_time"]
+        np.random.seed(0)
+        g0 = np.asarray(getattr(cuqi.testproblem, which)(**kw0).model.domain_geometry.grid, dtype=float)
+        ftype = cuqi.geometry.Continuous1D(g0)
+    kw = dict(dim=dim, endpoint=L, field_type=ftype, field_params=c.get("field_params"), SNR=c["SNR"],
               observation_grid_map=OBSMAPS[c["obs_map"]])
     if c["map"] == "exp":
         kw.update(map=lambda f: np.exp(f), imap=lambda g: np.log(g))
@@ -385,7 +397,7 @@ def run_pde(c, rec):
             got=np.asarray(tp.exactData), want=ye)
     # forward on parameters goes through the domain geometry
     p = A(c["p"])[: model.domain_dim]
-    if c["field_type"] is None and c["map"] is None and which == "Poisson1D":
+    if c["field_type"] in (None, "geometry_object") and c["map"] is None and which == "Poisson1D":
         p = np.abs(p) + 0.5  # conductivity must be positive
     fp = np.asarray(model.domain_geometry.par2fun(p), dtype=float)
     degenerate = which == "Poisson1D" and (np.any(fp <= 0) or np.min(fp) < 1e-6 * np.max(fp))
